@@ -28,7 +28,7 @@ PROPS = {
     "C10": dict(streams=["c10"], items=["keycodes", "charclasses", "rankcmp", "okkhor"]),
     "C11": dict(streams=["c11"], items=["keycodes", "layoutkeys", "charclasses", "rankcmp", "okkhor"]),
     "C15": dict(streams=["c15"], items=["keycodes", "layoutkeys", "charclasses", "rankcmp"]),
-    "C16": dict(streams=["c16"], items=["keycodes", "layoutkeys", "charclasses", "rankcmp", "okkhor"]),
+    "C16": dict(streams=["c16"], items=["keycodes", "layoutkeys", "charclasses", "rankcmp", "okkhor", "bijoy"]),
     "C17": dict(streams=["c17"], items=["keycodes", "layoutkeys", "charclasses", "rankcmp", "okkhor"]),
     "C18": dict(streams=["c18"], items=["keycodes", "layoutkeys", "charclasses", "rankcmp", "okkhor"]),
     "C19": dict(streams=["c19"], items=["keycodes", "layoutkeys", "charclasses", "rankcmp", "okkhor"], prebuild="ffi/build.sh"),
@@ -65,9 +65,17 @@ def strip_lean_comments(src):
     src = re.sub(r'--.*', '', src)
     return src
 
+# further theorem modules owned by a property: (file under RitiModel/, namespace, lake module)
+EXTRA = {
+    "C06": [(os.path.join("Props", "C06Phonetic.lean"), "C06P", "RitiModel.Props.C06Phonetic")],
+    "C16": [(os.path.join("Props", "Bijoy.lean"), "Bijoy", "RitiModel.Props.Bijoy")],
+}
+# kernel-checked sample modules (examples only): built with the property, the dictionary ones only in the thorough tier
+SAMPLES = {"C16": (["RitiModel.Props.BijoySamples"], ["RitiModel.Props.BijoySamplesDict", "RitiModel.Props.BijoySamplesDict2"])}
+
 def theorems_of(pid):
     out = []
-    for mod, ns in ((os.path.join("Props", f"{pid}.lean"), pid), ("Tie.lean", "Tie")):
+    for mod, ns in [(os.path.join("Props", f"{pid}.lean"), pid), ("Tie.lean", "Tie")] + [(m, n) for m, n, _ in EXTRA.get(pid, [])]:
         src = strip_lean_comments(open(os.path.join(LEAN, "RitiModel", mod), encoding="utf-8").read())
         out += [f"Riti.{ns}.{m}" for m in re.findall(r'^\s*theorem\s+([^\s\(\[\{:]+)', src, flags=re.M)]
     return out
@@ -87,7 +95,7 @@ def audit(pid):
     ths = theorems_of(pid)
     tmp = os.path.join(OUT, pid, "audit.lean")
     with open(tmp, "w") as f:
-        f.write(f"import RitiModel.Props.{pid}\nimport RitiModel.Tie\n")
+        f.write(f"import RitiModel.Props.{pid}\nimport RitiModel.Tie\n" + "".join(f"import {m}\n" for _, _, m in EXTRA.get(pid, [])))
         for t in ths: f.write(f"#print axioms {t}\n")
     rc, out = sh(["lake", "env", "lean", tmp], cwd=LEAN, timeout=900)
     res = []; problems = []
@@ -162,7 +170,9 @@ def main():
             if f["item"] in cfg["items"] or f["item"] in ("translator", "logicconsts", "panicsites"):
                 broken.append(f"translator:{f['item']} ({f['why']})")
         log.append(f"translate: changed={tr.get('changed')} failed={[f['item'] for f in tr.get('failed', [])]}")
-        rc, out = sh(["lake", "build", f"RitiModel.Props.{pid}", "RitiModel.Tie", "driver"], cwd=LEAN, timeout=3000)
+        targets = [f"RitiModel.Props.{pid}", "RitiModel.Tie", "driver"] + [m for _, _, m in EXTRA.get(pid, [])]
+        if pid in SAMPLES: targets += SAMPLES[pid][0] + (SAMPLES[pid][1] if tier == "thorough" else [])
+        rc, out = sh(["lake", "build"] + targets, cwd=LEAN, timeout=3000)
         theorems = []
         if rc != 0:
             errs = [l for l in out.splitlines() if l.startswith("error:")]
